@@ -341,24 +341,25 @@ theorem chunksOk_mem_map (O : Oracle) : ∀ (kvs : List (Bytes × PVal)) (kv : B
 /-- the value is one the well-formedness theorem speaks about: either the environment has no `Any`
 at all (then the message is arbitrary), or every `j5_json` stored in it is a recognised chunk -/
 def GoodV (env : Env) (O : Oracle) (fld : Field) (v : PVal) : Prop :=
-  (env.noAny = true ∧ fieldNoAny fld = true) ∨ v.chunksOk O = true
+  (env.noAny = true ∧ fieldNoAny fld = true) ∨ (ChunkLaws O ∧ v.chunksOk O = true)
 
 def GoodM (env : Env) (O : Oracle) (props : List PropDef) (m : Fields) : Prop :=
-  (env.noAny = true ∧ ∀ p ∈ props, fieldNoAny p.field = true) ∨ chunksOkFields O m = true
+  (env.noAny = true ∧ ∀ p ∈ props, fieldNoAny p.field = true) ∨
+    (ChunkLaws O ∧ chunksOkFields O m = true)
 
 theorem goodM_of_find (env : Env) (O : Oracle) (fld : Field) (ref : String) (ps : List PropDef)
     (fs : Fields) (hg : GoodV env O fld (.msg fs))
     (hf : env.find ref = some (.object ps) ∨ env.find ref = some (.oneof ps)) : GoodM env O ps fs := by
-  rcases hg with ⟨hna, _⟩ | hc
+  rcases hg with ⟨hna, _⟩ | ⟨hC, hc⟩
   · exact Or.inl ⟨hna, find_noAny env hna ref ps hf⟩
-  · exact Or.inr (by simpa [PVal.chunksOk] using hc)
+  · exact Or.inr ⟨hC, by simpa [PVal.chunksOk] using hc⟩
 
 theorem goodV_of_goodM (env : Env) (O : Oracle) (props : List PropDef) (m : Fields) (p : PropDef)
     (v : PVal) (hg : GoodM env O props m) (hp : p ∈ props) (hv : getPath m p.path = some v) :
     GoodV env O p.field v := by
-  rcases hg with ⟨hna, hall⟩ | hc
+  rcases hg with ⟨hna, hall⟩ | ⟨hC, hc⟩
   · exact Or.inl ⟨hna, hall p hp⟩
-  · exact Or.inr (chunksOk_getPath O p.path m v hc hv)
+  · exact Or.inr ⟨hC, chunksOk_getPath O p.path m v hc hv⟩
 
 /-- the facts about encoder trees at fuel `f` -/
 structure ET (env : Env) (O : Oracle) (f : Nat) : Prop where
@@ -366,7 +367,7 @@ structure ET (env : Env) (O : Oracle) (f : Nat) : Prop where
   fld : ∀ props p m t, GoodM env O props m → p ∈ props → encField env O f p m = .ok (some t) → t.Enc
   obj : ∀ props m t, GoodM env O props m → encObjectBody env O f props m = .ok t → t.Enc
   one : ∀ ops m t, GoodM env O ops m → encOneofBody env O f ops m = .ok t → t.Enc
-  root : ∀ r v t, v.chunksOk O = true → encRoot env O f r v = .ok t → t.Enc
+  root : ∀ r v t, ChunkLaws O → v.chunksOk O = true → encRoot env O f r v = .ok t → t.Enc
 
 theorem member_enc (name : Bytes) (t : PTree) (e : Bytes × Bytes × PTree) (ht : t.Enc)
     (h : member name (.ok t) = .ok (some e)) : LitOk e.1 e.2.1 ∧ e.2.2.Enc := by
@@ -374,7 +375,7 @@ theorem member_enc (name : Bytes) (t : PTree) (e : Bytes × Bytes × PTree) (ht 
   cases ht'; cases hr
   exact ⟨LitOk_of_appendString name lit ha, ht⟩
 
-theorem ET_all (env : Env) (O : Oracle) (hC : ChunkLaws O) (hO : FloatTextOk O) :
+theorem ET_all (env : Env) (O : Oracle) (hO : FloatTextOk O) :
     ∀ f, ET env O f := by
   intro f
   induction f with
@@ -384,7 +385,7 @@ theorem ET_all (env : Env) (O : Oracle) (hC : ChunkLaws O) (hO : FloatTextOk O) 
     · intro props p m t _ _ h; simp [encField] at h
     · intro props m t _ h; simp [encObjectBody] at h
     · intro ops m t _ h; simp [encOneofBody] at h
-    · intro r v t _ h; simp [encRoot] at h
+    · intro r v t _ _ h; simp [encRoot] at h
   | succ f ih =>
     refine ⟨?_, ?_, ?_, ?_, ?_⟩
     · -- values
@@ -413,7 +414,7 @@ theorem ET_all (env : Env) (O : Oracle) (hC : ChunkLaws O) (hO : FloatTextOk O) 
           exact ih.one ops fs t (goodM_of_find env O _ ref ops fs hg (Or.inr hfind)) h
         · cases h
       | any pb =>
-        have hc : v.chunksOk O = true := by
+        obtain ⟨hC, hc⟩ : ChunkLaws O ∧ v.chunksOk O = true := by
           rcases hg with ⟨_, hfn⟩ | hc
           · simp [fieldNoAny] at hfn
           · exact hc
@@ -434,7 +435,7 @@ theorem ET_all (env : Env) (O : Oracle) (hC : ChunkLaws O) (hO : FloatTextOk O) 
                 · split at hdata
                   · cases hdata
                   · cases hdata
-                  · exact ih.root iroot inner data hc.2 hdata
+                  · exact ih.root iroot inner data hC hc.2 hdata
                 · cases hdata
             split at h
             · next typeLit tnNode valueLit h1 h2 h3 =>
@@ -456,7 +457,7 @@ theorem ET_all (env : Env) (O : Oracle) (hC : ChunkLaws O) (hO : FloatTextOk O) 
                 · split at hdata
                   · cases hdata
                   · cases hdata
-                  · exact ih.root iroot inner data hc hdata
+                  · exact ih.root iroot inner data hC hc hdata
                 · cases hdata
             split at h
             · next typeLit tnNode valueLit h1 h2 h3 =>
@@ -476,9 +477,9 @@ theorem ET_all (env : Env) (O : Oracle) (hC : ChunkLaws O) (hO : FloatTextOk O) 
         · next xs _ _ _ =>
           have hgi : ∀ x ∈ xs, GoodV env O item x := by
             intro x hx
-            rcases hg with ⟨hna, hfn⟩ | hc
+            rcases hg with ⟨hna, hfn⟩ | ⟨hC, hc⟩
             · exact Or.inl ⟨hna, by simpa [fieldNoAny] using hfn⟩
-            · exact Or.inr (chunksOk_mem_list O xs x (by simpa [PVal.chunksOk] using hc) hx)
+            · exact Or.inr ⟨hC, chunksOk_mem_list O xs x (by simpa [PVal.chunksOk] using hc) hx⟩
           cases hr : xs.foldr (fun x acc => consElem (encValue env O f item x) acc)
               (.ok (.nil .closed)) with
           | err e => simp [hr] at h
@@ -501,9 +502,9 @@ theorem ET_all (env : Env) (O : Oracle) (hC : ChunkLaws O) (hO : FloatTextOk O) 
         · next kvs _ _ _ =>
           have hgi : ∀ kv ∈ kvs, GoodV env O item kv.2 := by
             intro kv hkv
-            rcases hg with ⟨hna, hfn⟩ | hc
+            rcases hg with ⟨hna, hfn⟩ | ⟨hC, hc⟩
             · exact Or.inl ⟨hna, by simpa [fieldNoAny] using hfn⟩
-            · exact Or.inr (chunksOk_mem_map O kvs kv (by simpa [PVal.chunksOk] using hc) hkv)
+            · exact Or.inr ⟨hC, chunksOk_mem_map O kvs kv (by simpa [PVal.chunksOk] using hc) hkv⟩
           cases hr : kvs.foldr (fun kv acc =>
               consMember (member kv.1 (encValue env O f item kv.2)) acc) (.ok (.nil .closed)) with
           | err e => simp [hr] at h
@@ -605,20 +606,21 @@ theorem ET_all (env : Env) (O : Oracle) (hC : ChunkLaws O) (hO : FloatTextOk O) 
           · cases h
       · cases h
     · -- root
-      intro r v t hc h
+      intro r v t hC hc h
       simp only [encRoot] at h
       split at h
       · next props fs hfind =>
-        exact ih.obj props fs t (Or.inr (by simpa [PVal.chunksOk] using hc)) h
+        exact ih.obj props fs t (Or.inr ⟨hC, by simpa [PVal.chunksOk] using hc⟩) h
       · next ops fs hfind =>
-        exact ih.one ops fs t (Or.inr (by simpa [PVal.chunksOk] using hc)) h
+        exact ih.one ops fs t (Or.inr ⟨hC, by simpa [PVal.chunksOk] using hc⟩) h
       · cases h
 
 /-- whatever tree the encoder produces — for any message at all of an environment without `Any`,
 or for a message of any environment whose stored `j5_json` chunks are all recognised — is an
 encoder tree: closed containers, literals that read back -/
-theorem encodeTree_enc' (env : Env) (O : Oracle) (hC : ChunkLaws O) (hO : FloatTextOk O)
-    (root : String) (v : PVal) (t : PTree) (hg : env.noAny = true ∨ v.chunksOk O = true)
+theorem encodeTree_enc' (env : Env) (O : Oracle) (hO : FloatTextOk O)
+    (root : String) (v : PVal) (t : PTree)
+    (hg : env.noAny = true ∨ (ChunkLaws O ∧ v.chunksOk O = true))
     (h : encodeTree env O root v = .ok t) : t.Enc := by
   unfold encodeTree at h
   generalize encFuel v = f at h
@@ -628,15 +630,15 @@ theorem encodeTree_enc' (env : Env) (O : Oracle) (hC : ChunkLaws O) (hO : FloatT
     simp only [encRoot] at h
     split at h
     · next props fs hfind =>
-      refine (ET_all env O hC hO f).obj props fs t ?_ h
-      rcases hg with hna | hc
+      refine (ET_all env O hO f).obj props fs t ?_ h
+      rcases hg with hna | ⟨hC, hc⟩
       · exact Or.inl ⟨hna, find_noAny env hna root props (Or.inl hfind)⟩
-      · exact Or.inr (by simpa [PVal.chunksOk] using hc)
+      · exact Or.inr ⟨hC, by simpa [PVal.chunksOk] using hc⟩
     · next ops fs hfind =>
-      refine (ET_all env O hC hO f).one ops fs t ?_ h
-      rcases hg with hna | hc
+      refine (ET_all env O hO f).one ops fs t ?_ h
+      rcases hg with hna | ⟨hC, hc⟩
       · exact Or.inl ⟨hna, find_noAny env hna root ops (Or.inr hfind)⟩
-      · exact Or.inr (by simpa [PVal.chunksOk] using hc)
+      · exact Or.inr ⟨hC, by simpa [PVal.chunksOk] using hc⟩
     · cases h
 
 end J5V.Codec
@@ -754,8 +756,9 @@ end
 
 /-- `Codec.ProtoToJSON` output parses with the strict reader — for ANY message of an environment
 without `Any`, and for any message of any environment whose stored `j5_json` chunks are recognised -/
-theorem encodeBytes_parses' (env : Env) (O : Oracle) (hC : ChunkLaws O) (hO : FloatTextOk O)
-    (root : String) (v : PVal) (bs : Bytes) (hg : env.noAny = true ∨ v.chunksOk O = true)
+theorem encodeBytes_parses' (env : Env) (O : Oracle) (hO : FloatTextOk O)
+    (root : String) (v : PVal) (bs : Bytes)
+    (hg : env.noAny = true ∨ (ChunkLaws O ∧ v.chunksOk O = true))
     (h : encodeBytes env O root v = .ok bs) :
     ∃ t, encodeTree env O root v = .ok t ∧ bs = t.render ∧ parse bs = some t := by
   unfold encodeBytes at h
@@ -764,13 +767,14 @@ theorem encodeBytes_parses' (env : Env) (O : Oracle) (hC : ChunkLaws O) (hO : Fl
   | panic w => simp [ht] at h
   | ok t =>
     simp only [ht] at h; cases h
-    exact ⟨t, rfl, rfl, parse_render t (encodeTree_enc' env O hC hO root v t hg ht)⟩
+    exact ⟨t, rfl, rfl, parse_render t (encodeTree_enc' env O hO root v t hg ht)⟩
 
 /-- **byte-level round trip with progress**: `Codec.ProtoToJSON` succeeds on every representable
 message of a flat environment (j5 `Any` included, codec without `WithProtoToAny`) and
 `Codec.JSONToProto` maps the bytes back to exactly that message -/
 theorem roundtrip_bytes (c : Cfg) (hs : c.env.flat = true) (L : OracleLaws c.O)
-    (hC : ChunkLaws c.O) (hA : c.protoToAny = false ∨ c.env.noAny = true) (root : String)
+    (hC : c.env.noAny = true ∨ ChunkLaws c.O) (hA : c.protoToAny = false ∨ c.env.noAny = true)
+    (root : String)
     (m : Fields)
     (hok : valOk c.env c.O (.object root) (.msg m) = true ∨ valOk c.env c.O (.oneof root) (.msg m) = true) :
     ∃ bs, encodeBytes c.env c.O root (.msg m) = .ok bs ∧ decodeBytes c root bs = .ok m := by
@@ -781,8 +785,8 @@ theorem roundtrip_bytes (c : Cfg) (hs : c.env.flat = true) (L : OracleLaws c.O)
     rcases hok with hok | hok
     · exact valOk_chunksOk _ _ _ _ hok
     · exact valOk_chunksOk _ _ _ _ hok
-  rw [readDoc_render t (encodeTree_enc' c.env c.O hC (floatTextOk_of_laws c.O L)
-    root (.msg m) t (Or.inr hch) ht)]
+  rw [readDoc_render t (encodeTree_enc' c.env c.O (floatTextOk_of_laws c.O L)
+    root (.msg m) t (hC.elim Or.inl (fun h => Or.inr ⟨h, hch⟩)) ht)]
   exact hdec
 
 /-- the shape of an encoded `Any` -/
